@@ -354,6 +354,12 @@ theorem whds_get (m0 pj0m : K) (nact : Nat) (ms : List K) (i : Nat) (h : i < ms.
     (etas .whds m0 pj0m nact ms)[i]? = some (if i < nact then m0 + ms[i] else m0) := by
   simp [etas, h]
   
+theorem jumpSum_eq (px : K) (l : List (K × K)) :
+    jumpSum px l = px + (l.map (fun p => p.1 * p.2)).sum := by
+  induction l generalizing px with
+  | nil => simp [jumpSum]
+  | cons a r ih => obtain ⟨m, v⟩ := a; simp only [jumpSum, ih, sc_hadd, sc_hmul, List.map_cons, List.sum_cons]; ring
+
 end mass
 
 end RV.Kepler
